@@ -8,7 +8,7 @@
   Model  : `whyTree` (ILV.Model.Prov), the same chainer model as C21, with `max_depth`, the cycle set
            `visited`, `max_proofs_per_tuple` and the memo table `seen`.
 -/
-import ILV.Lemmas.Prov
+import ILV.Lemmas.ProvComplete
 namespace ILV.Props.C22
 open ILV ILV.Prov
 
@@ -54,5 +54,37 @@ theorem C22_refuted_memo_truncated : ¬ C22_statement := by
   have := h w2Prog w2Base w2M "reach" [.i64 3] 3 3 (by decide) (by decide) (by decide) (by decide) (by decide)
   revert this
   decide
+
+/-- **C22_partial (build_complete).** For every program of the fragment `c22Fragment` (decidable:
+    positive bodies only, supported terms, *non-recursive* — a rank table `rk` with every body relation
+    strictly below its head —, relations with rules store no facts and only they have derived tuples,
+    canonical data), every derived data `M` that is a supported model (`supportedModel`, decidable: each
+    derived tuple is produced by some clause over the world — true of the perfect model), every stored
+    or derived tuple and every depth limit above the rank of its relation (= the height of the rule DAG
+    below it), the tree `.why` returns is complete: no `Truncated` node — in particular not the fallback
+    root — and no unexplained `Fact{Derived}` leaf. Proof: induction on the depth tower = on the rank;
+    the cycle cut never fires (ranks strictly decrease along the `visited` stack), every true sub-goal
+    is found among the candidates and has a non-empty proof list, so the derived-fact fallback and the
+    truncation node are never created (ILV.Lemmas.ProvComplete.level_c). The two refutations above
+    need recursion. -/
+theorem C22_partial (prog : Program) (base M : DB) (rk : List (String × Nat)) (rel : String) (t : Tuple)
+    (depth : Nat) (hf : c22Fragment prog base M rk = true) (hs : supportedModel prog base M = true)
+    (hmem : t ∈ M.get rel ∨ t ∈ base.get rel) (hdepth : rankOf rk rel < depth)
+    (harity : truncateToArity { rules := prog, base := base, derived := some M, maxDepth := depth } rel t = t) :
+    (whyTree { rules := prog, base := base, derived := some M, maxDepth := depth } rel t).complete = true :=
+  whyTree_complete prog base M rk rel t depth hf hs hmem hdepth harity
+
+/-- the hypotheses are met by a non-trivial three-level program with joins, a head constant, a body
+    constant, a wildcard and two clauses per head; the depth limit 3 is exactly rank + 1. -/
+def pProg : Program :=
+  [⟨⟨"a1", [.var "X", .var "Y"]⟩, [.pos ⟨"e", [.var "X", .var "Y"]⟩]⟩,
+   ⟨⟨"a1", [.var "X", .var "X"]⟩, [.pos ⟨"f", [.var "X"]⟩]⟩,
+   ⟨⟨"a2", [.var "X", .int 7]⟩, [.pos ⟨"a1", [.var "X", .var "Z"]⟩, .pos ⟨"a1", [.var "Z", .wild]⟩, .pos ⟨"e", [.int 1, .var "Z"]⟩]⟩]
+def pBase : DB := [("e", [[.i64 1, .i64 2], [.i64 2, .i64 3]]), ("f", [[.i64 3]])]
+def pM : DB := [("a1", [[.i64 1, .i64 2], [.i64 2, .i64 3], [.i64 3, .i64 3]]), ("a2", [[.i64 1, .i64 7]])]
+def pRk : List (String × Nat) := [("e", 0), ("f", 0), ("a1", 1), ("a2", 2)]
+
+example : (whyTree { rules := pProg, base := pBase, derived := some pM, maxDepth := 3 } "a2" [.i64 1, .i64 7]).complete = true :=
+  C22_partial pProg pBase pM pRk "a2" [.i64 1, .i64 7] 3 (by decide) (by decide) (by decide) (by decide) (by decide)
 
 end ILV.Props.C22
